@@ -26,7 +26,7 @@ UNIVERSES = {
     "odd-values": [{"a": "x y"}, {"a": "1.5"}, {"a": 0.5}, {"a": "é"}],
     "heterogeneous": [{"a": 0}, {"a": 1, "b": 2}, {"b": 3}, {"a": 0, "z": 1}],
     "colliding-text": [{"a": 1}, {"a": "1"}, {"a": 1.0}, {"a": True}],
-    "separator": [{"a": "x/y"}, {"a": 0}, {"a": 1}],
+    "separator": [{"a": "x/y"}, {"a": 0}, {"a": 1}, {"a": "x/"}],
     # a state point key spelled like the link name: the link of one job and a directory of another compete for one path
     "job-key": [{"a": 1}, {"a": 1, "job": 2}, {"a": 2, "job": 3}],
 }
